@@ -53,18 +53,24 @@ func vpH_C11_crc() {
 		b := vpPersist(seg)
 		l, _ := vpLoadFile(b)
 		vpNote("feat:re-persist-file-backed")
+		vpFailedPersistFirst(l, len(b))
 		b2 := vpPersist(l)
 		vpAssert(len(b2) == len(b), "re-persisted file has the same length")
 		vpAssert(vpBytesEq(b2, b), "persisting a file-backed loaded segment reproduces the file byte for byte")
 		vpFooterCheck("re-persisted (file-backed)", b2, uint64(len(docs)), mode)
 		vpReach("C11 loaded file")
 	case 0:
-		vpFooterCheck("built", vpPersist(seg), uint64(len(docs)), mode)
+		first := vpPersist(seg)
+		vpFailedPersistFirst(seg, len(first))
+		again := vpPersist(seg)
+		vpAssert(vpBytesEq(first, again), "persisting a built segment twice writes the same bytes")
+		vpFooterCheck("built", again, uint64(len(docs)), mode)
 		vpReach("C11 built")
 	case 1:
 		b := vpPersist(seg)
 		l := vpLoad(b)
 		vpNote("feat:re-persist-loaded")
+		vpFailedPersistFirst(l, len(b))
 		b2 := vpPersist(l)
 		vpAssert(len(b2) == len(b), "re-persisted file has the same length")
 		vpAssert(vpBytesEq(b2, b), "persisting a loaded segment reproduces the file byte for byte")
@@ -92,6 +98,24 @@ func vpH_C11_crc() {
 		vpReach("C11 merged loaded")
 	}
 	vpReach("C11 end")
+}
+
+// vpFailedPersistFirst optionally persists seg into a writer that fails after
+// some bytes (the first attempt of a retried persist): a failed attempt must
+// not influence what the next one writes.
+func vpFailedPersistFirst(seg *Segment, size int) {
+	k := vpChoice("failed-write-first", 4)
+	if k == 0 {
+		return
+	}
+	limit := []int{0, 0, size / 2, size - 2}[k]
+	if limit < 0 {
+		limit = 0
+	}
+	vpNote("feat:failed-persist-first")
+	w := &vpFailWriter{limit: uint64(limit), partial: 1}
+	_, err := seg.WriteTo(w, nil)
+	vpAssert(err != nil, "persisting into a failing writer reports an error")
 }
 
 // vpShortWriter accepts at most k bytes per call.
